@@ -24,7 +24,7 @@ DRIVER_BIN = os.path.join(CACHE, "driver-target", "debug", "mirfacts")
 # feature configurations of the library ("cover what the build covers")
 LIB_CONFIGS = {
     "default": [],
-    "nodefault": ["--no-default-features"],
+    # (`--no-default-features` does not build at the pinned commit: src/errors uses serde_json unconditionally)
     "jsononly": ["--no-default-features", "--features", "serde-json"],
     "actix": ["--features", "actix-web"],
     "axum": ["--features", "axum"],
